@@ -17,6 +17,7 @@ import (
 const contractFileName = "zz_contracts_verif.go"
 
 type Ctx struct {
+	firstIter bool // encode loops without havoc, cut at back edges (under-approximation)
 	repo           string
 	prog           *ssa.Program
 	pkgs           []*packages.Package
